@@ -35,9 +35,10 @@ for id in $ids; do
       *) pkgdir=path;;
     esac
     cp $D/demo_test.go $W/$pkgdir/zz_demo_test.go
-    a=$(cd $W && go test -vet=off -count=1 -run 'ZZ|Demo' ./$pkgdir 2>&1 | tail -1)
+    race=""; grep -q -- "-race" $D/demo_test.go && race="-race"   # demonstrations of data races ask for the race detector
+    a=$(cd $W && go test $race -vet=off -count=1 -run 'ZZ|Demo|TestC[0-9][0-9]' ./$pkgdir 2>&1 | tail -1)
     if ! (cd $W && git apply $D/patch.diff); then conf="patch-does-not-apply"; else
-      b=$(cd $W && go test -vet=off -count=1 -run 'ZZ|Demo' ./$pkgdir 2>&1 | tail -1)
+      b=$(cd $W && go test $race -vet=off -count=1 -run 'ZZ|Demo|TestC[0-9][0-9]' ./$pkgdir 2>&1 | tail -1)
       rm $W/$pkgdir/zz_demo_test.go
       s=$(cd $W && go build ./... 2>&1 && go test -vet=off -count=1 ./... 2>&1 | grep -vc '^ok')
       conf="demo-unchanged=[${a%%	*}] demo-changed=[${b%%	*}] suite-not-ok-lines=$s"
@@ -53,6 +54,10 @@ for id in $ids; do
 import json,sys,os
 r=json.load(open('/verif/seeded/$id/result.json'))
 m=json.load(open('/verif/seeded/$id/meta.json')) if os.path.exists('/verif/seeded/$id/meta.json') else {}
+if m.get('expected')=='undecided':
+    # a restructuring that makes clauses of the function stale: the checks must not be
+    # silent about it (exit 2, UNDECIDED), but it is not counted as a detected violation
+    sys.exit(0 if r.get('exit')==2 or r['caught'] else 1)
 if m.get('expected')=='not-a-violation':
     # kept in the corpus as a reminder: the change does not break the property as quantified
     sys.exit(0 if not r['caught'] else 0)
